@@ -140,21 +140,26 @@ fn c26_fractional(rep: &mut Report, cat: &Arc<QCatalog>, slip: usize) {
         let (first_before, o1, first_after) = send(1)?;
         let (_, o2, _) = send(2)?;
         let (_, o3, _) = send(3)?;
-        let (_, o4, _) = send(4)?;
+        let (_, o4, fourth_after) = send(4)?;
         trace.push(format!("t=0: {:?} {:?} {:?} {:?}", o1, o2, o3, o4));
+        if fourth_after.duration_since(first_before).as_secs_f64() > 0.9 {
+            return Err("timing".into());
+        }
         if !(o1 == Outcome::Sent && o2 == Outcome::Sent && o3 == Outcome::Sent && limited(o4)) {
             return Ok(Some("the bucket of capacity 3 did not fill as expected".into()));
         }
         // one virtual second plus 0.6 real seconds: one refill, 0.6 s carried over
         server.verif_rrl_shift(1);
         std::thread::sleep(std::time::Duration::from_millis(600));
-        let (a_before, oa, a_after) = send(5)?;
-        let (_, oa2, _) = send(6)?;
+        let (_a_before, oa, _) = send(5)?;
+        // (the bounds below must hold for the second request of each pair as well: if it is
+        // delayed past the next whole second, a further refill is legitimate)
+        let (_, oa2, a_after) = send(6)?;
         trace.push(format!("t=1.6: {:?} {:?}", oa, oa2));
         // another 0.55 real seconds: 1.15 s since the refill instant, so one more refill is due
         std::thread::sleep(std::time::Duration::from_millis(550));
-        let (b_before, ob, b_after) = send(7)?;
-        let (_, ob2, _) = send(8)?;
+        let (b_before, ob, _) = send(7)?;
+        let (_, ob2, b_after) = send(8)?;
         trace.push(format!("t=2.15: {:?} {:?}", ob, ob2));
         // only judge when the real clock leaves no doubt about the whole seconds involved
         let e1_max = a_after.duration_since(first_before).as_secs_f64();
